@@ -12,6 +12,7 @@ import CookModel.Driver.Tie
 import CookModel.Driver.Display
 import CookModel.Driver.Report
 import CookModel.Driver.ScaleM
+import CookModel.Driver.SerdeEq
 /- Registry of line-protocol handlers. One line per area. -/
 namespace Cook.Driver
 def handlers : List (List String → Option String) := [
@@ -28,6 +29,7 @@ def handlers : List (List String → Option String) := [
   handleTie,
   handleDisplay,
   handleReport,
-  handleScaleM
+  handleScaleM,
+  handleSerdeEq
 ]
 end Cook.Driver
